@@ -427,11 +427,179 @@ def dtype_stream(rep: Report, rng: Rng):
                           {"kind": "dtype", "fn": fn, "reference": case_desc(fn, kw), "variant": case_desc(fn, v)})
             return
 
+# ------------------------------------------------------------------ kernel stream (generated terms vs the real kernels)
+
+KERNEL_CHAIN = {   # functional -> (update kernel, compute kernel) as ids of harness/translators/kernels.py
+    "binary_accuracy": ("binary_accuracy_update", "accuracy_compute"),
+    "binary_precision": ("binary_precision_update", "precision_compute"),
+    "binary_recall": ("binary_recall_update", "binary_recall_compute"),
+    "binary_f1_score": ("binary_f1_score_update", "f1_score_compute"),
+    "binary_confusion_matrix": ("binary_confusion_matrix_update", "confusion_matrix_compute"),
+    "multiclass_accuracy": ("multiclass_accuracy_update", "accuracy_compute"),
+    "multiclass_precision": ("precision_update", "precision_compute"),
+    "multiclass_recall": ("recall_update", "recall_compute"),
+    "multiclass_f1_score": ("f1_score_update", "f1_score_compute"),
+    "multiclass_confusion_matrix": ("confusion_matrix_update", "confusion_matrix_compute"),
+    "multilabel_accuracy": ("multilabel_accuracy_update", "accuracy_compute"),
+}
+KERNEL_TWINS = {"f1_score_update": "f1_score__update", "confusion_matrix_update": "confusion_matrix__update"}   # wrapper -> jit helper, same arguments
+
+
+def translate(rep: Report):
+    """(T) regenerate lean/TE/Gen/Kernels.lean from the kernels' source (TE.Props.C04_Kernels is proved about it)"""
+    from ..translators import kernels
+    from ..common import LEAN
+    rows = kernels.generate(rep)
+    # every translated kernel must be the subject of a theorem of TE/Props/C04_Kernels.lean
+    props = (LEAN / "TE" / "Props" / "C04_Kernels.lean").read_text()
+    for r in rows:
+        if r["term"] is not None and f"Gen.k_{r['id']}" not in props.replace(f"Gen.k_{r['id']}_", ""):
+            rep.broke(f"kernels:{r['id']}", f"kernel {r['func']} is translated but no theorem of TE/Props/C04_Kernels.lean is about Gen.k_{r['id']}", {})
+
+
+def kenc(v) -> str:
+    """typed argument syntax of the `gen.<kernel>` requests (TE/Driver/Kernels.lean)"""
+    from ..common import enc_tensor, fq
+    if isinstance(v, torch.Tensor):
+        return enc_tensor(v)
+    if v is None:
+        return "none"
+    if isinstance(v, bool):
+        return "b.true" if v else "b.false"
+    if isinstance(v, int):
+        return f"i.{v}"
+    if isinstance(v, float):
+        return "q." + fq(v)
+    if isinstance(v, str):
+        return "s." + v
+    raise TypeError(f"kernel argument {v!r}")
+
+
+def kernel_rows():
+    import importlib
+    from ..translators import kernels
+    rows = {r["id"]: r for r in kernels.facts()}
+    for r in rows.values():
+        if "fn" not in r:
+            try:
+                mod = importlib.import_module(f"torcheval.metrics.functional.classification.{r['module']}")
+                r["fn"] = getattr(mod, r["func"], None)
+            except Exception:  # noqa: BLE001
+                r["fn"] = None
+    return rows
+
+
+def kernel_calls(rows, fn, kw):
+    """the kernel calls behind one functional case: [(kernel id, kwargs, real outcome)] — the update kernel on the
+    case's arguments (defaults made explicit), its jit twin, then the compute kernel on what the REAL update returned"""
+    up, comp = KERNEL_CHAIN[fn]
+    out = []
+    if rows[up]["term"] is None or rows[up].get("fn") is None:
+        return out
+    a = {}
+    for name in rows[up]["params"]:
+        if name in kw:
+            a[name] = kw[name]
+        elif name in rows[up]["defaults"]:
+            a[name] = rows[up]["defaults"][name]
+        else:
+            a[name] = {"average": "micro", "num_classes": None, "k": 1}[name]
+    if a.get("average") in ("none", "None") and fn != "multiclass_precision":
+        a["average"] = None          # what the public functions hand to the kernels (only `_precision_compute` knows "None")
+    real = call_real(rows[up]["fn"], **a)
+    out.append((up, a, real))
+    tw = KERNEL_TWINS.get(up)
+    if tw and rows[tw]["term"] is not None and rows[tw].get("fn") is not None:
+        out.append((tw, a, call_real(rows[tw]["fn"], **a)))
+    if real[0] != "ok" or rows[comp]["term"] is None or rows[comp].get("fn") is None:
+        return out
+    cp, res = rows[comp]["params"], real[1]
+    if comp == "binary_recall_compute":
+        b = dict(zip(cp, res))
+    elif comp == "accuracy_compute":
+        b = {cp[0]: res[0], cp[1]: res[1], cp[2]: a.get("average", "micro")}
+    elif comp == "confusion_matrix_compute":
+        b = {cp[0]: res[0], cp[1]: kw.get("normalize")}
+        if b[cp[1]] == "none":
+            b[cp[1]] = None
+    else:
+        b = {cp[0]: res[0], cp[1]: res[1], cp[2]: res[2], cp[3]: a.get("average", "micro")}
+    out.append((comp, b, call_real(rows[comp]["fn"], **b)))
+    if comp == "confusion_matrix_compute" and rows["binary_confusion_matrix_compute"]["term"] is not None \
+            and fn == "binary_confusion_matrix" and rows["binary_confusion_matrix_compute"].get("fn") is not None:
+        bb = {"cm": res[0], "normalize": b[cp[1]]}
+        out.append(("binary_confusion_matrix_compute", bb, call_real(rows["binary_confusion_matrix_compute"]["fn"], **bb)))
+    return out
+
+
+def kernel_extra_cases(rng: Rng, tier):
+    """inputs the functional generators do not produce: labels / predictions outside [0, num_classes) (`scatter_`
+    raises), 0/1 matrices fed to `_multilabel_update` directly"""
+    for _ in range(300 if tier == "thorough" else 60):
+        C, n = rng.choice([2, 3]), rng.choice([1, 2, 4])
+        ls = [rng.randrange(C + 1) for _ in range(n)]
+        ps = [rng.randrange(C + 1) for _ in range(n)]
+        # never the confusion-matrix kernels: this torch build does not validate COO indices, an index outside the
+        # size makes `to_dense()` write out of bounds (C14's subject; must not happen in-process)
+        fn = rng.choice(["multiclass_accuracy", "multiclass_precision", "multiclass_recall", "multiclass_f1_score"])
+        kw = {"input": it(ps), "target": it(ls), "num_classes": C}
+        kw["average"] = rng.choice(["micro", "macro", None] if fn == "multiclass_accuracy" else AVGS)
+        yield fn, kw
+    for _ in range(300 if tier == "thorough" else 60):
+        n, L = rng.choice([1, 2, 3]), rng.choice([1, 2, 3])
+        yield "multilabel_update", {"input": it([rng.choice([0, 1]) for _ in range(n * L)], shape=(n, L)),
+                                    "target": it([rng.choice([0, 1]) for _ in range(n * L)], shape=(n, L)),
+                                    "criteria": rng.choice(["exact_match", "hamming", "overlap", "contain", "belong"])}
+
+
+def kernel_stream(rep: Report, rng: Rng):
+    """the GENERATED term of every translated kernel (request `gen.<kernel>`) against the REAL private kernel function
+    on the same arguments.  A disagreement is a broken correspondence between the source and its translation
+    (`kernels:<name>`), never a violation by itself."""
+    rows = kernel_rows()
+    cap = 40000 if rep.tier == "thorough" else 7000
+    todo = []
+    for fn, kw, _tag in all_cases(rng, rep.tier):
+        if fn in KERNEL_CHAIN and len(todo) < cap:
+            todo.append((fn, kw))
+    calls = []
+    for fn, kw in todo:
+        calls += kernel_calls(rows, fn, kw)
+    for fn, kw in kernel_extra_cases(rng, rep.tier):
+        if fn == "multilabel_update":
+            if rows[fn]["term"] is not None and rows[fn].get("fn") is not None:
+                calls.append((fn, kw, call_real(rows[fn]["fn"], **kw)))
+        else:
+            calls += kernel_calls(rows, fn, kw)
+    # a ValueError / TypeError comes from the `_input_check` at the top of the kernel, which the translation skips (C18)
+    calls = [c for c in calls if not (c[2][0] == "err" and c[2][1] in ("ValueError", "TypeError"))]
+    lines = [f"fn gen.{kid} " + " ".join(f"{k}={kenc(v)}" for k, v in a.items()) for kid, a, _ in calls]
+    outs = run_driver(lines)
+    nbad = {}
+    for (kid, a, real), line, o in zip(calls, lines, outs):
+        rep.count(f"kernel-stream:{kid}")
+        if real[0] == "err":
+            rep.count(f"kernel-stream:err:{real[1]}")
+        rep.case(nontrivial_key=("kernel", line), sample={"request": line[:300], "model": o[:200]} if rep.dist.get(f"kernel-stream:{kid}") == 1 and kid.endswith("compute") else None)
+        rep.traces += 1
+        msg = outcomes_agree(real, dec_out(o))
+        if msg is None:
+            continue
+        nbad[kid] = nbad.get(kid, 0) + 1
+        if nbad[kid] <= 3:
+            rep.broke(f"kernels:{kid}", f"the term generated from the source of {rows[kid]['module']}.{rows[kid]['func']} and the real function disagree ({msg}) "
+                      f"on {line[:400]}", {"kind": "kernel", "kernel": kid, "request": line, "generated": o,
+                                           "real": real[1] if real[0] == "err" else [t.tolist() for t in real[1]]})
+    untr = [k for k, r in rows.items() if r["term"] is None]
+    rep.streams["kernels"] = {"cases": len(calls), "disagreements": sum(nbad.values()), "untranslated": untr}
+
+
 def run(rep: Report):
     rng = Rng(rep.seed * 1000003 + 4)
     from .. import opscheck; opscheck.check_ops(rep, ["count"])
     check_cases(rep, all_cases(rng, rep.tier), "functional")
     dtype_stream(rep, Rng(rep.seed * 1000003 + 44))
+    kernel_stream(rep, Rng(rep.seed * 1000003 + 444))
 
 
 def search(rep: Report):
